@@ -21,7 +21,7 @@ func init() {
 			"(wrapper) each verify wrapper forwards exactly its parameters to request.Verify and returns nil only past its success edge; " +
 			"(hash-covers) the signed bytes derive from method, identity, nonce and args, and each request.Verify returns nil only under the cryptographic check fed by identity, hash and signature; " +
 			"(dispatch-agree) Sign and Verify dispatch on the same predicate, and RemotePool signs under the constants its server-side twins verify. " +
-			"Decides the shape of the authentication mechanism on all paths, not cryptographic strength. Round 2: no write to an endpoint parameter reaches the verify call; hash() hands nonce and identity to assemble unconverted.",
+			"Decides the shape of the authentication mechanism on all paths, not cryptographic strength. Round 2: no write to an endpoint parameter reaches the verify call; hash() hands nonce and identity to assemble unconverted. Round 5: (param-codec) no custom JSON/text codec on types inside signed parameters; wrapper parameters by role, assemble inputs by slot.",
 		NotDecided: []string{"not decided: cryptographic strength of secp256k1/keccak; JSON canonicalisation of the signed payload"},
 		Exhaustive: true,
 	}
@@ -29,7 +29,7 @@ func init() {
 		Run: runC06,
 		Explanation: "Static ordering rules (gate reachability over SSA CFGs): (nonce-after-sig) in every verify wrapper the nonce store is reachable only through the success edge of request.Verify; " +
 			"(effects-after-verify) in every signed endpoint no effect (store, balance manager, reverse RPC, host registry write) is reachable with the verify success edges removed; " +
-			"(no-pre-verify-state) no receiver field or package variable is written before the verify call. A refused request therefore reaches no state-changing construct. Round 2: (hash-covers) shared with C04 — the signed bytes carry the exact nonce and identity, so a nonce-altered copy is refused at all.",
+			"(no-pre-verify-state) no receiver field or package variable is written before the verify call. A refused request therefore reaches no state-changing construct. Round 2: (hash-covers) shared with C04 — the signed bytes carry the exact nonce and identity, so a nonce-altered copy is refused at all. Round 5: (nonce-kept-on-refusal) no nonce-space write precedes a refusing return of CheckAndSaveNonce.",
 		NotDecided: []string{"not decided: refusals for reasons other than authentication (e.g. low balance after SetNode) are outside C06's statement"},
 		Exhaustive: true,
 	}
